@@ -207,9 +207,9 @@ Qed.
 (* a fully loaded collection changes only through a bad event (or the run fails) *)
 Lemma stable m2m s e :
   cfailed s = false -> full s = true -> bad_event m2m s e = false ->
-  cfailed (cstep m2m s e) = true \/ (items (cstep m2m s e) = items s /\ full (cstep m2m s e) = true /\ cfailed (cstep m2m s e) = false).
+  cfailed (cstep0 m2m s e) = true \/ (items (cstep0 m2m s e) = items s /\ full (cstep0 m2m s e) = true /\ cfailed (cstep0 m2m s e) = false).
 Proof.
-  intros F Fu B. unfold cstep. rewrite F. destruct e as [db | db | i mine | i linked].
+  intros F Fu B. unfold cstep0. rewrite F. destruct e as [db | db | i mine | i linked].
   - unfold cload. rewrite Fu, F. right. cbn. auto.
   - unfold cload. rewrite Fu, F. right. cbn. auto.
   - destruct m2m; [right; auto|]. unfold item_reload.
@@ -226,9 +226,9 @@ Qed.
 Definition kinv (s : cstate) : Prop :=
   all_same (cobs s) /\ (cfailed s = false -> forall o r, cobs s = o :: r -> full s = true /\ o = items s).
 
-Lemma cstep_cobs_other m2m s e : (forall db, e <> CObsCopy db) -> (forall db, e <> CObsLen db) -> cobs (cstep m2m s e) = cobs s.
+Lemma cstep_cobs_other m2m s e : (forall db, e <> CObsCopy db) -> (forall db, e <> CObsLen db) -> cobs (cstep0 m2m s e) = cobs s.
 Proof.
-  intros N1 N2. unfold cstep. destruct (cfailed s); [reflexivity|]. destruct e as [db | db | i mine | i linked].
+  intros N1 N2. unfold cstep0. destruct (cfailed s); [reflexivity|]. destruct e as [db | db | i mine | i linked].
   - exfalso. now apply (N1 db).
   - exfalso. now apply (N2 db).
   - destruct m2m; [reflexivity|]. unfold item_reload. destruct (Bool.eqb _ _); [reflexivity|].
@@ -251,12 +251,12 @@ Proof.
     + intros _ o r E. injection E as <- _. auto.
 Qed.
 
-Lemma kinv_step m2m s e : kinv s -> bad_event m2m s e = false -> kinv (cstep m2m s e).
+Lemma kinv_step m2m s e : kinv s -> bad_event m2m s e = false -> kinv (cstep0 m2m s e).
 Proof.
-  intros KI B. destruct (cfailed s) eqn:F; [unfold cstep; now rewrite F|].
+  intros KI B. destruct (cfailed s) eqn:F; [unfold cstep0; now rewrite F|].
   destruct e as [db | db | i mine | i linked].
-  - unfold cstep. rewrite F. exact (kinv_obs m2m s db (fun s1 => if m2m then pinned s1 else union (pinned s1) (items s1)) KI F).
-  - unfold cstep. rewrite F. exact (kinv_obs m2m s db pinned KI F).
+  - unfold cstep0. rewrite F. exact (kinv_obs m2m s db (fun s1 => if m2m then pinned s1 else union (pinned s1) (items s1)) KI F).
+  - unfold cstep0. rewrite F. exact (kinv_obs m2m s db pinned KI F).
   - destruct KI as [A K]. split; [rewrite cstep_cobs_other by congruence; exact A|].
     intros F' o r E. rewrite cstep_cobs_other in E by congruence. destruct (K F o r E) as [Fu ->].
     destruct (stable m2m s _ F Fu B) as [X|(X1 & X2 & X3)]; [congruence | auto].
@@ -265,7 +265,7 @@ Proof.
     destruct (stable m2m s _ F Fu B) as [X|(X1 & X2 & X3)]; [congruence | auto].
 Qed.
 
-Lemma kinv_run m2m evs : forall s, kinv s -> no_bad m2m s evs = true -> kinv (crun m2m s evs).
+Lemma kinv_run m2m evs : forall s, kinv s -> no_bad m2m s evs = true -> kinv (crun0 m2m s evs).
 Proof.
   induction evs as [|e r IH]; intros s KI NB; cbn; [exact KI|].
   cbn in NB. apply andb_true_iff in NB. destruct NB as [B NB]. apply negb_true_iff in B.
@@ -275,19 +275,19 @@ Qed.
 Lemma kinv_init : kinv cinit.
 Proof. split; cbn; [exact I | intros _ o r E; discriminate]. Qed.
 
-Lemma collection_except_known m2m evs : no_bad m2m cinit evs = true -> all_same (cobs (crun m2m cinit evs)).
+Lemma collection_except_known m2m evs : no_bad m2m cinit evs = true -> all_same (cobs (crun0 m2m cinit evs)).
 Proof. intros NB. apply (kinv_run m2m evs cinit kinv_init NB). Qed.
 
-(* with the proposed repair the statement holds without exception *)
-Lemma kinv_step_fixed m2m s e : kinv s -> kinv (cstep_fixed m2m s e).
+(* the step as coded (with the phantom-disappeared check of db_reverse_remove): the statement holds without exception *)
+Lemma kinv_step_fixed m2m s e : kinv s -> kinv (cstep m2m s e).
 Proof.
-  intros KI. unfold cstep_fixed. destruct (bad_event m2m s e) eqn:B; [|now apply kinv_step].
+  intros KI. unfold cstep. destruct (bad_event m2m s e) eqn:B; [|now apply kinv_step].
   destruct KI as [A K]. split; [exact A | cbn; discriminate].
 Qed.
 
-Lemma collection_fixed m2m evs : all_same (cobs (crun_fixed m2m cinit evs)).
+Lemma collection_fixed m2m evs : all_same (cobs (crun m2m cinit evs)).
 Proof.
-  assert (forall s, kinv s -> kinv (crun_fixed m2m s evs)) as H.
+  assert (forall s, kinv s -> kinv (crun m2m s evs)) as H.
   { induction evs as [|e r IH]; intros s KI; cbn; [exact KI|]. apply IH. now apply kinv_step_fixed. }
   apply (H cinit kinv_init).
 Qed.
@@ -295,16 +295,16 @@ Qed.
 Lemma no_bad_m2m evs : forall s, no_bad true s evs = true.
 Proof. induction evs as [|e r IH]; intros s; cbn; [reflexivity|]. rewrite IH. destruct e as [| | i [|] |]; reflexivity. Qed.
 
-Lemma collection_m2m evs : all_same (cobs (crun true cinit evs)).
+Lemma collection_m2m evs : all_same (cobs (crun0 true cinit evs)).
 Proof. apply collection_except_known, no_bad_m2m. Qed.
 
 (* one-to-many: once the collection has been iterated (copy), its members are pinned and no bad event is possible *)
 Definition frozen (s : cstate) : Prop := cfailed s = false /\ full s = true /\ subset (items s) (pinned s) = true.
 
 Lemma frozen_step s e : frozen s ->
-  cfailed (cstep false s e) = true \/ (frozen (cstep false s e) /\ items (cstep false s e) = items s).
+  cfailed (cstep0 false s e) = true \/ (frozen (cstep0 false s e) /\ items (cstep0 false s e) = items s).
 Proof.
-  intros (F & Fu & P). unfold cstep. rewrite F. destruct e as [db | db | i mine | i linked].
+  intros (F & Fu & P). unfold cstep0. rewrite F. destruct e as [db | db | i mine | i linked].
   - unfold cload. rewrite Fu, F. right. split; [|reflexivity]. split; [reflexivity|]. split; [exact Fu|]. cbn.
     apply subset_In. intros i Hi. apply union_In. right. exact Hi.
   - unfold cload. rewrite Fu, F. right. split; [|reflexivity]. split; [reflexivity|]. split; [exact Fu | exact P].
@@ -316,28 +316,28 @@ Proof.
   - cbn. right. split; [split; auto | reflexivity].
 Qed.
 
-Lemma cstep_failed m2m s e : cfailed s = true -> cstep m2m s e = s.
-Proof. intros F. unfold cstep. now rewrite F. Qed.
+Lemma cstep_failed m2m s e : cfailed s = true -> cstep0 m2m s e = s.
+Proof. intros F. unfold cstep0. now rewrite F. Qed.
 
-Lemma crun_failed m2m evs : forall s, cfailed s = true -> crun m2m s evs = s.
+Lemma crun_failed m2m evs : forall s, cfailed s = true -> crun0 m2m s evs = s.
 Proof. induction evs as [|e r IH]; intros s F; cbn; [reflexivity|]. rewrite cstep_failed by exact F. now apply IH. Qed.
 
 Lemma cstep_obs_frozen s e : frozen s ->
-  exists new, cobs (cstep false s e) = new ++ cobs s /\ Forall (fun o => o = items s) new.
+  exists new, cobs (cstep0 false s e) = new ++ cobs s /\ Forall (fun o => o = items s) new.
 Proof.
   intros (F & Fu & P). destruct e as [db | db | i mine | i linked].
-  - unfold cstep. rewrite F. unfold cload. rewrite Fu, F. cbn. exists [items s]. split; [reflexivity | repeat constructor].
-  - unfold cstep. rewrite F. unfold cload. rewrite Fu, F. cbn. exists [items s]. split; [reflexivity | repeat constructor].
+  - unfold cstep0. rewrite F. unfold cload. rewrite Fu, F. cbn. exists [items s]. split; [reflexivity | repeat constructor].
+  - unfold cstep0. rewrite F. unfold cload. rewrite Fu, F. cbn. exists [items s]. split; [reflexivity | repeat constructor].
   - exists []. split; [|constructor]. now rewrite cstep_cobs_other by congruence.
   - exists []. split; [|constructor]. now rewrite cstep_cobs_other by congruence.
 Qed.
 
 Lemma frozen_run evs : forall s, frozen s ->
-  exists new, cobs (crun false s evs) = new ++ cobs s /\ Forall (fun o => o = items s) new.
+  exists new, cobs (crun0 false s evs) = new ++ cobs s /\ Forall (fun o => o = items s) new.
 Proof.
   induction evs as [|e r IH]; intros s Fz.
   - exists []. split; [reflexivity | constructor].
-  - change (crun false s (e :: r)) with (crun false (cstep false s e) r).
+  - change (crun0 false s (e :: r)) with (crun0 false (cstep0 false s e) r).
     destruct (cstep_obs_frozen s e Fz) as [n1 [E1 A1]].
     destruct (frozen_step s e Fz) as [X|[Fz' It]].
     + rewrite crun_failed by exact X. exists n1. auto.
@@ -347,11 +347,11 @@ Proof.
 Qed.
 
 Lemma copy_freezes evs1 db :
-  let s := crun false cinit (evs1 ++ [CObsCopy db]) in
+  let s := crun0 false cinit (evs1 ++ [CObsCopy db]) in
   cfailed s = false -> frozen s /\ exists r, cobs s = items s :: r.
 Proof.
-  cbn zeta. unfold crun. rewrite fold_left_app. cbn [fold_left]. fold (crun false cinit evs1).
-  set (s0 := crun false cinit evs1). intros F. unfold cstep in *.
+  cbn zeta. unfold crun0. rewrite fold_left_app. cbn [fold_left]. fold (crun0 false cinit evs1).
+  set (s0 := crun0 false cinit evs1). intros F. unfold cstep0 in *.
   destruct (cfailed s0) eqn:F0; [congruence|].
   destruct (cfailed (cload false s0 db)) eqn:F1; [congruence|].
   destruct (cload_full false s0 db F1 F0) as [Fu _]. cbn. split.
@@ -360,15 +360,10 @@ Proof.
 Qed.
 
 Lemma collection_o2m_copy evs1 db evs2 :
-  let s := crun false cinit (evs1 ++ [CObsCopy db]) in
+  let s := crun0 false cinit (evs1 ++ [CObsCopy db]) in
   cfailed s = false ->
-  exists new r, cobs (crun false s evs2) = new ++ items s :: r /\ Forall (fun o => o = items s) new.
+  exists new r, cobs (crun0 false s evs2) = new ++ items s :: r /\ Forall (fun o => o = items s) new.
 Proof.
   cbn zeta. intros F. destruct (copy_freezes evs1 db F) as [Fz [r Er]].
   destruct (frozen_run evs2 _ Fz) as [new [E A]]. exists new, r. rewrite E, Er. auto.
 Qed.
-
-(* the finding: len() of a fully loaded one-to-many collection, a member moves away, its row is fetched again *)
-Lemma collection_o2m_len_refuted :
-  coutcome false [CObsLen [1; 2]%nat; CItemReload 1 false; CObsLen [2]%nat] = (false, [[1; 2]%nat; [2]%nat]).
-Proof. vm_compute. reflexivity. Qed.
